@@ -318,10 +318,68 @@ def t_sparse_index():
     return out
 
 
+def t_estimation():
+    """estimation.all_covariances: FFT length and result slice; build_full_covariance_matrix: branch ladder"""
+    fn = find_def('estimation.py', 'all_covariances')
+    src = ast.unparse(fn)
+    if 'T = M.shape[0]' not in src:
+        raise Unsupported('all_covariances: T')
+    pads = []
+    keep = None
+    for n in ast.walk(fn):
+        if isinstance(n, ast.Call) and ast.unparse(n.func) in ('np.fft.rfftn', 'np.fft.irfftn'):
+            kw = {k.arg: k.value for k in n.keywords}
+            if 's' not in kw or not isinstance(kw['s'], ast.Tuple) or len(kw['s'].elts) != 1 or ast.unparse(kw.get('axes')) != '(0,)':
+                raise Unsupported('fft call shape')
+            pads.append((ast.unparse(n.func), expr(kw['s'].elts[0])))
+        if isinstance(n, ast.Subscript) and isinstance(n.value, ast.Call) and ast.unparse(n.value.func) == 'np.fft.irfftn':
+            if not isinstance(n.slice, ast.Slice) or n.slice.lower is not None or n.slice.step is not None:
+                raise Unsupported('result slice')
+            keep = expr(n.slice.upper)
+    if sorted(p[0] for p in pads) != ['np.fft.irfftn', 'np.fft.rfftn'] or keep is None:
+        raise Unsupported('all_covariances structure')
+    if 'dft.conjugate() * sigmas ** 2 @ dft.swapaxes(1, 2)' not in src:
+        raise Unsupported('all_covariances: spectral product')
+    out = "From SSJ Require Import Lib.EstTypes.\n\n"
+    out += f"Definition pad_forward (T : Z) : Z := {dict(pads)['np.fft.rfftn']}.\n"
+    out += f"Definition pad_inverse (T : Z) : Z := {dict(pads)['np.fft.irfftn']}.\n"
+    out += f"Definition cov_keep (T : Z) : Z := {keep}.\n\n"
+    bf = find_def('estimation.py', 'build_full_covariance_matrix')
+    src = ast.unparse(bf)
+    for needed in ('T, O, O = Sigma.shape', 'V = np.empty((Tobs, O, Tobs, O))', 'for t1 in range(Tobs)', 'for t2 in range(Tobs)',
+                   'return V.reshape((Tobs * O, Tobs * O))'):
+        if needed not in src:
+            raise Unsupported(f'build_full_covariance_matrix context: {needed}')
+    loops = [n for n in bf.body if isinstance(n, ast.For)]
+    if len(loops) != 1 or len(loops[0].body) != 1 or not isinstance(loops[0].body[0], ast.For) or len(loops[0].body[0].body) != 1:
+        raise Unsupported('build_full_covariance_matrix loops')
+    ladder = loops[0].body[0].body[0]
+
+    def leaf(body):
+        if len(body) != 1 or not isinstance(body[0], ast.Assign) or ast.unparse(body[0].targets[0]) != 'V[t1, :, t2, :]':
+            raise Unsupported('covariance block assignment')
+        v = body[0].value
+        u = ast.unparse(v)
+        if u == 'np.zeros((O, O))':
+            return 'VZero'
+        if u == 'np.diag(sigma_measurement ** 2) + (Sigma[0, :, :] + Sigma[0, :, :].T) / 2':
+            return 'VDiag'
+        tr = False
+        if isinstance(v, ast.Attribute) and v.attr == 'T':
+            tr, v = True, v.value
+        if isinstance(v, ast.Subscript) and ast.unparse(v.value) == 'Sigma' and isinstance(v.slice, ast.Tuple) \
+                and [ast.unparse(x) for x in v.slice.elts[1:]] == [':', ':']:
+            return f"(VLag {expr(v.slice.elts[0])} {'true' if tr else 'false'})"
+        raise Unsupported('covariance block value ' + u)
+    out += f"Definition v_block (T t1 t2 : Z) : vblock :=\n  {if_chain(ladder, leaf)}.\n"
+    return out
+
+
 TARGETS = {
     'MultiplyBasis': t_multiply_basis,
     'ComputeL': t_compute_l,
     'SparseIndex': t_sparse_index,
+    'Estimation': t_estimation,
 }
 
 
